@@ -155,7 +155,14 @@ def drive(ctx, strategy, body, max_examples, salt=0, max_rounds=4, label=""):
     for rnd in range(max_rounds):
         holder = {}
 
+        budget = float(os.environ.get("VERIF_SHRINK_S", 20 if ctx.quick else 90))
+
         def test(case):
+            if "t_fail" in holder and time.time() - holder["t_fail"] > budget:
+                # shrink budget used up: only the best failing case found so far still
+                # executes (it must keep failing for the final replay); the rest is skipped
+                if digest(case) != holder["best"]:
+                    return
             try:
                 f = body(case)
             except hypothesis.errors.HypothesisException:
@@ -170,6 +177,8 @@ def drive(ctx, strategy, body, max_examples, salt=0, max_rounds=4, label=""):
             if f.sig in muted:
                 return
             holder["last"] = (f, case)
+            holder.setdefault("t_fail", time.time())
+            holder["best"] = digest(case)
             raise _Found(f.sig)
 
         st = settings(
